@@ -112,6 +112,8 @@ def tags_of(files, op):
                         tags.add("self-referential-assignment")
                 if len(assigns) > 1:
                     tags.add("assigned-more-than-once")
+                if assigns and any(isinstance(st, ast.AugAssign) and isinstance(st.target, ast.Name) and st.target.id == target for st in ast.walk(fn)):
+                    tags.add("augmented-assignment-to-the-inlined-variable")
                 # the value is pasted without parentheses: an operator expression that becomes an operand
                 loose = (ast.BinOp, ast.BoolOp, ast.Compare, ast.UnaryOp, ast.IfExp, ast.Lambda, ast.NamedExpr, ast.Await, ast.Yield, ast.YieldFrom, ast.Starred)
                 if any(isinstance(a.value, loose) or (isinstance(a.value, ast.Tuple) and src_has_bare_tuple(files, a)) for a in assigns):
